@@ -407,16 +407,16 @@ def native_replay(croot, h, logdir):
             t = open(p).read()
             if 'kani_concrete_playback' not in t:
                 continue
-            t = t.replace('let concrete_vals: Vec<Vec<u8>> = vec![', 'let concrete_vals: ::std::vec::Vec<::std::vec::Vec<u8>> = ::std::vec![')
-            t = re.sub(r'^(\s*)vec!\[([0-9, ]*)\](,?)\s*$', r'\1::std::vec![\2]\3', t, flags=re.M)
-            # Kani emits the same test twice when two failing checks share one counterexample: keep the first
+            # Kani emits the same test twice when two failing checks share one counterexample: keep the first;
+            # inside the generated tests only (sliced code may itself say `vec![]` against a stub Vec), make Vec / vec! absolute
             seen = set()
             def dedupe(m):
                 if m.group(1) in seen:
                     return ''
                 seen.add(m.group(1))
-                return m.group(0)
-            t = re.sub(r'#\[test\]\s*fn (kani_concrete_playback_\w+)\(\) \{.*?kani::concrete_playback_run\([^;]*;\s*\}', dedupe, t, flags=re.S)
+                b = m.group(0).replace('let concrete_vals: Vec<Vec<u8>> = vec![', 'let concrete_vals: ::std::vec::Vec<::std::vec::Vec<u8>> = ::std::vec![')
+                return re.sub(r'^(\s*)vec!\[([0-9, ]*)\](,?)\s*$', r'\1::std::vec![\2]\3', b, flags=re.M)
+            t = re.sub(r'#\[test\]\s*fn (kani_concrete_playback_\w+)\(\s*\)\s*\{.*?kani::concrete_playback_run\([^;]*;\s*\}', dedupe, t, flags=re.S)
             open(p, 'w').write(t)
     profiles = {
         'dev': {},
